@@ -43,14 +43,19 @@ def cases(draw, tier="quick"):
         if cm[0] == "alloc":
             P["code_suffix"] = [None, "x"]
     payload = st.binary(max_size=12)
-    P["sends"] = [draw(st.lists(payload, max_size=3)), draw(st.lists(payload, max_size=3))]
+    P["sends"] = [draw(st.lists(payload, max_size=5)), draw(st.lists(payload, max_size=3))]
     P["drops"] = draw(st.sampled_from([0, 0, 1, 2, 4]))
     P["dup"] = draw(st.booleans())
     P["reorder"] = draw(st.booleans())
     if shape == "error":
         P["inject_error"] = draw(st.integers(0, 1))
     if shape == "unwelcome":
-        P["welcome_error"] = "go away"
+        if draw(st.integers(0, 2)) > 0:
+            P["welcome_error"] = "go away"
+        else:
+            # the server starts refusing clients later: only re-connections are greeted with the error
+            P["welcome_error_late"] = [draw(st.integers(2, 4)), "go away"]
+            P["drops"] = max(P["drops"], 2)
     if shape == "motd":
         P["welcome_motd"] = "hello"
     if shape == "refuse":
@@ -80,6 +85,7 @@ def cases(draw, tier="quick"):
     if draw(st.integers(0, 3)) == 0:
         slow = draw(st.integers(0, 1))
         P["w_s2c"] = [1 if slow == 0 else 10, 1 if slow == 1 else 10]      # a slow reader: its inbound queue builds up
+        P["w_adv"] = draw(st.sampled_from([2, 6]))
     n = draw(st.integers(0, 240))
     P["tape"] = draw(st.binary(min_size=n, max_size=n))
     return P
@@ -92,7 +98,7 @@ def latecode_cases(draw, tier="quick"):
     P = draw(cases(tier))
     shape = draw(st.sampled_from(["error", "unwelcome"]))
     side = draw(st.integers(0, 1))
-    for k in ("welcome_error", "inject_error", "third", "refuse", "codes", "code_suffix", "welcome_motd"):
+    for k in ("welcome_error", "welcome_error_late", "inject_error", "third", "refuse", "codes", "code_suffix", "welcome_motd"):
         P.pop(k, None)
     P["shape"] = shape
     other = draw(st.sampled_from(["set", "alloc"]))
